@@ -105,12 +105,19 @@ func H11b() {
 			s += "\xc3" + b[i:i+1]
 		}
 	}
-	second := vLen("second", 0, 1)
+	second := vLen("second", 0, 3)
 	ts := Tokens{Token{s, AtomType}}
 	nch := []int{n}
-	if second == 1 {
+	switch second {
+	case 1:
 		ts = append(ts, Token{"-", SeparatorType}, Token{"x", AtomType})
 		nch = append(nch, 1, 1)
+	case 2: // not alternating: needs the full index
+		ts = append(ts, Token{"-", SeparatorType})
+		nch = append(nch, 1)
+	case 3: // the long token second, after a separator
+		ts = Tokens{Token{"-", SeparatorType}, Token{s, AtomType}}
+		nch = []int{1, n}
 	}
 	if n <= 255 {
 		h11RoundTrip(ts, nch)
